@@ -190,6 +190,25 @@ def run(chk):
             continue
         lines.append(print_line(a, built, "random:built_from_classes"))
     chk.notes["generated_invalid_skipped"] = skipped
+    # ---- S2b: fixed corners of the grammar (enumerated, never sampled): repeated / single-operand grouping, mixed object types, names that need quoting
+    corner_skipped = []
+    for what, a in IP.corner_asts():
+        text = IP.render(a)
+        if not c09.valid(text):
+            corner_skipped.append(text)
+            continue
+        for version in ("2.1", "2.0"):
+            lines.append(print_line(a, text, "corner:%s%s" % (what, "" if version == "2.1" else ":2.0"), version=version))
+            if what == "consecutive_indices" and lines[-1]["parse_ok"]:
+                lines[-1]["same_pq"] = True
+        if what == "consecutive_indices":
+            continue
+        try:
+            lines.append(print_line(a, str(build_model(a)), "corner:%s:built_from_classes" % what))
+        except Exception as e:  # noqa
+            lines.append({"kind": "print", "how": "corner:%s:built_from_classes" % what, "tp": text, "tq": "", "invocab": False, "p": {"k": "x"}, "q": {"k": "x"}, "r": {"k": "x"},
+                          "parse_ok": False, "reparse_ok": False, "same_pq": False, "same_qr": False, "fixed": False, "exc": "build:" + type(e).__name__})
+    chk.stages["S2b_grammar_corners"] = {"asts": len(IP.corner_asts()), "refused_by_the_grammar_and_skipped": corner_skipped}
     import re
     for ln in lines:
         t = ln["tp"]
